@@ -95,6 +95,48 @@ fn sort_error_runs(t: &str) -> String {
     out.join("\n")
 }
 
+/// Listing text with the optional blanks removed: outside string literals and remarks a blank (run)
+/// survives, as one blank, only between two word characters.
+fn squeeze_blanks(l: &str) -> String {
+    let c: Vec<char> = l.chars().collect();
+    let wordch = |ch: char| ch.is_ascii_alphanumeric() || matches!(ch, '$' | '%' | '!' | '#' | '.' | '&');
+    let mut out = String::new();
+    let mut in_str = false;
+    let mut i = 0;
+    while i < c.len() {
+        let ch = c[i];
+        if ch == '"' {
+            in_str = !in_str;
+        }
+        if !in_str {
+            let rest: String = c[i..].iter().take(4).collect::<String>().to_ascii_uppercase();
+            let at_word = out.chars().last().map(|p| !p.is_ascii_alphabetic()).unwrap_or(true);
+            if ch == '\'' || (at_word && rest.starts_with("REM") && !rest.chars().nth(3).map(|x| x.is_ascii_alphanumeric()).unwrap_or(false)) {
+                out.extend(c[i..].iter());
+                break;
+            }
+            if ch == ' ' {
+                let mut j = i;
+                while j < c.len() && c[j] == ' ' {
+                    j += 1;
+                }
+                let prev = out.chars().last();
+                let next = c.get(j).copied();
+                if let (Some(p), Some(n)) = (prev, next) {
+                    if wordch(p) && wordch(n) {
+                        out.push(' ');
+                    }
+                }
+                i = j;
+                continue;
+            }
+        }
+        out.push(ch);
+        i += 1;
+    }
+    out
+}
+
 impl Meta {
     // ------------------------------------------------------------------ C16
     fn c16(&self, rng: &mut Rng, ctx: &mut Ctx) {
@@ -114,7 +156,10 @@ impl Meta {
         }
         // the listing keeps the blanks the user typed between tokens (deliberately), so the two
         // listings are compared with blanks removed; everything else must be identical
-        let squeeze = |v: Vec<String>| -> Vec<String> { v.into_iter().map(|l| l.replace(' ', "")).collect() };
+        // ... but where two words meet (PRINT A, 7 MOD 3, GOTO 10, THEN PRINT) every spelling,
+        // also the crunched one, must list with a blank between them: blanks are dropped only next
+        // to punctuation and operators, and runs of blanks count as one
+        let squeeze = |v: Vec<String>| -> Vec<String> { v.into_iter().map(|l| squeeze_blanks(&l)).collect() };
         let (la, lb) = (squeeze(a.listing_text()), squeeze(b.listing_text()));
         if la != lb {
             let i = la.iter().zip(lb.iter()).position(|(x, y)| x != y).unwrap_or(0);
